@@ -48,10 +48,10 @@ _c('HANDLE', 'Debug ErrorFile LstFile MacProFile MacroFile ShareFile PrgFile',
 _c('EXIT', 'FirstDefine LineInfoRoot asminclist.c:Root asminclist.c:Curr asmpars.c:FirstLocHandle PatchList PatchLast '
    'ExportList ExportLast asmerr.c:pExpectErrors asmfnums.c:FirstFile asmfnums.c:FileCount',
    'list emptied at the end of every pass (clean-up in the pass loop / AsmErrPassExit / CloseFile)')
-_c('BALANCED', 'IfAsm CurrIncludeLevel asmpars.c:DoRefs JmpErrors',
+_c('BALANCED', 'IfAsm CurrIncludeLevel asmpars.c:DoRefs',
    'every write in the body is one half of an open/close pair; an unbalanced pass ends with an error and no pass follows')
 _c('CARRIED', 'asmpars.c:FirstSymbol asmpars.c:FirstLocSymbol asmmac.c:MacroRoot StructRoot asmpars.c:FirstFunction '
-   'FirstSection asmpars.c:FirstStack asmpars.c:MomSection MomSectionHandle TmpSymLog',
+   'FirstSection asmpars.c:FirstStack asmpars.c:MomSection MomSectionHandle',
    'carried into the next pass by design (symbol values / definitions of the previous pass), cleared per file')
 _c('TARGET', 'Grans ListGrans SegInits SegLimits PCs SegChunks StructSaveSeg MomFPUIdent MomPMMUIdent '
    'intpseudo.c:Z80SyntaxName',
@@ -62,6 +62,9 @@ _c('REPORT', 'as.c:MacroNestLevel as.c:LineZ',
    'only feeds the listing annotation "(MACRO-n)" / the paging of the help screen, never code, symbols or diagnostics')
 _c('COUNTED', 'asmallg.c:ONOFFList',
    'only the first ONOFFCnt entries are valid and ONOFFCnt is cut back by ClearONOFF() whenever a target is left')
+_c('COUNTED', 'TmpSymLog',
+   'only the first TmpSymLogDepth entries are read and TmpSymLogDepth is reset at every pass start')
+COUNT_OF = {'TmpSymLog': 'TmpSymLogDepth'}
 _c('GENLINE', 'AdrCnt motpseudo.c:M16Turn',
    'scratch of one instruction: assigned by the operand decoder / pseudo-op decoder before each use')
 _c('GUARDED', 'StartAdr', 'read only when StartAdrPresent is set, which is reset at every pass start')
@@ -143,6 +146,9 @@ def core_reset(chk, facts, rule, scope):
             if cls[0] == 'LINE' and k not in lk:
                 ok = False
                 why = 'classified as line scratch, but the per-line driver no longer assigns it'
+            if cls[0] == 'COUNTED' and k in COUNT_OF and COUNT_OF[k] not in KP:
+                ok = False
+                why = 'its element count %s is no longer reset per pass' % COUNT_OF[k]
             if cls[0] == 'GUARDED' and 'StartAdrPresent' not in KP:
                 ok = False
                 why = 'its guard flag StartAdrPresent is no longer reset per pass'
@@ -178,7 +184,9 @@ def file_cleared(facts, P, ph):
     if id(P) in _fc:
         return _fc[id(P)]
     s = set()
-    for f in ph['FILE_EXIT'] | ph['FILE_INIT']:
+    # functions that also run inside a pass body (symbol entry, expression evaluation ...) do not count:
+    # their writes are the very writes that need a reset
+    for f in (ph['FILE_EXIT'] | ph['FILE_INIT']) - ph['BODY']:
         for (k, how, ln, n, b, i) in P.writes(f):
             if how in ('=', 'addr'):
                 s.add(k)
